@@ -139,6 +139,9 @@ package goat
 //@   ensures[C03.reply_is_a_status_or_a_body C06.reply_is_a_status_or_a_body C20.reply_is_a_status_or_a_body] bound("appErr") && result.Status == nil ==> result.Body != nil
 //@   ensures[C03.error_never_ok C20.end_error_nil_iff_no_status] bound("appErr") && appErr != nil ==> result.Status != nil && result.Status.Code != 0
 //@   atcall[C10.unary_handler_ctx_descends C07.unary_handler_ctx_descends] fnfield:H.google.golang.org/grpc.MethodDesc.Handler : desc(arg1, clientCtx)
+// the object that collects the handler's response headers and trailers is this call's own and starts empty
+//@   atcall[C05.per_call_state_is_the_calls_own C04.per_call_state_is_the_calls_own C15.per_call_state_is_the_calls_own] google.golang.org/grpc.NewContextWithServerTransportStream :
+//@     | bound("sts") && fresh(sts) && sts.headers == nil && sts.trailers == nil && !sts.headersSent
 //@   ensures[C01.reply_body C05.reply_body C15.reply_bytes_are_a_private_copy] bound("resp") && resp != nil && bound("err") && err == nil ==> result.Body != nil && result.Body.Data == protoBytes(resp)
 
 //@ objinv[C10.objinv C12.objinv] goat.Server : self.ctx != nil && self.cancel != nil && self.services != nil && (forall j Int :: 0 <= j && j < len(self.statsHandlers) ==> self.statsHandlers[j] != nil)
@@ -478,6 +481,7 @@ package goat
 //@   atcall[C01.request_carries_args C06.unary_request_header C04.request_metadata C08.request_timeout] client.(*RpcMultiplexer).CallUnaryMethod :
 //@     | arg2 != nil && arg2.Method == method && arg2.Source == cc.sourceAddress && arg2.Destination == cc.destAddress && arg2.Headers == headers
 //@     | && arg3 != nil && arg3.Data == bsContent(body) && arg4 == cc.statsHandlers
+//@   atcall[C05.request_header_is_the_calls_own C15.request_header_is_the_calls_own C04.request_header_is_the_calls_own] client.(*RpcMultiplexer).CallUnaryMethod : fresh(arg2) && fresh(arg3)
 //@   atcall[C01.request_bytes] (google.golang.org/grpc/encoding.CodecV2).Marshal : arg1 == args
 //@   atcall[C01.reply_decoded_into_reply] (google.golang.org/grpc/encoding.CodecV2).Unmarshal : bound("replyBody") && replyBody != nil && bufContent(arg1[0]) == replyBody.Data && arg2 == reply
 //@   ensures[C01.one_call C20.one_call] ncalls("call:client.(*RpcMultiplexer).CallUnaryMethod") <= old(ncalls("call:client.(*RpcMultiplexer).CallUnaryMethod")) + 1
@@ -526,6 +530,11 @@ package goat
 //@   ensures[C20.begin_once_end_on_failure] bound("beginTime") && result.1 != nil ==> ncalls("HandleRPC:*google.golang.org/grpc/stats.End") == old(ncalls("HandleRPC:*google.golang.org/grpc/stats.End")) + len(cc.statsHandlers)
 //@   ensures[C20.begin_once_end_on_failure] result.1 == nil ==> ncalls("HandleRPC:*google.golang.org/grpc/stats.End") == old(ncalls("HandleRPC:*google.golang.org/grpc/stats.End"))
 //@   ensures[C06.open_once] ncalls("(types.RpcReadWriter).Write") <= old(ncalls("(types.RpcReadWriter).Write")) + 1
+// an open that reached the peer is handed out as a stream (only a stream can cancel it: the read loop's
+// teardown writes the reset); the failed-open exit is for opens that were never written
+//@   ensures[C07.an_opened_stream_is_handed_out C14.an_opened_stream_is_handed_out C06.an_opened_stream_is_handed_out] ncalls("(types.RpcReadWriter).Write") == old(ncalls("(types.RpcReadWriter).Write")) + 1 && lastret("(types.RpcReadWriter).Write") == nil
+//@     | ==> result.1 == nil
+//@   atcall[C05.open_envelope_is_the_calls_own C15.open_envelope_is_the_calls_own C04.open_envelope_is_the_calls_own] (types.RpcReadWriter).Write : fresh(arg2) && fresh(arg2.Header)
 //@   atcall[C06.open_shape C04.request_metadata C08.request_timeout] (types.RpcReadWriter).Write : arg2 != nil && arg2.Id == id && arg2.Header != nil && arg2.Header.Method == method
 //@     | && arg2.Header.Source == cc.sourceAddress && arg2.Header.Destination == cc.destAddress && arg2.Body == nil && arg2.Status == nil && arg2.Trailer == nil && arg2.Reset_ == nil
 
